@@ -80,6 +80,160 @@ def c09_check_other_folding():
     return go()
 
 
+def _exec_templates(relpath, clsname):
+    """mechanical extraction of the methods a class body generates with  for method in [...]: exec(TEMPLATE % {'method': method}):
+    returns [(method names, template text)] in source order.  Dropped: nothing (the template text is instantiated exactly as exec would see it)."""
+    mod = ModInfo.load(relpath)
+    cls = [n for n in mod.tree.body if isinstance(n, ast.ClassDef) and n.name == clsname][0]
+    gens = []
+    for n in cls.body:
+        if isinstance(n, ast.For) and isinstance(n.iter, (ast.List, ast.Tuple)) and isinstance(n.target, ast.Name) and \
+                all(isinstance(e, ast.Constant) and isinstance(e.value, str) for e in n.iter.elts):
+            for st in n.body:
+                if isinstance(st, ast.Expr) and isinstance(st.value, ast.Call) and getattr(st.value.func, 'id', None) == 'exec' and st.value.args:
+                    a = st.value.args[0]
+                    if isinstance(a, ast.BinOp) and isinstance(a.op, ast.Mod) and isinstance(a.left, ast.Constant) and isinstance(a.right, ast.Dict) and \
+                            len(a.right.keys) == 1 and isinstance(a.right.values[0], ast.Name) and a.right.values[0].id == n.target.id:
+                        gens.append(([e.value for e in n.iter.elts], a.left.value, a.right.keys[0].value))
+    return mod, gens
+
+
+def c09_operators():
+    """The arithmetic operators of Spectrum are generated in the class body by exec over two templates (binary / in-place).  The templates are
+    extracted mechanically from the class body and instantiated exactly as exec does, then executed symbolically per generated method:
+      * table: each Python 3 arithmetic operator +, -, *, /, //, ** has its forward, reflected and in-place method generated (so that no operand
+        order falls back to numpy.ma's own operators, which know nothing about folding);
+      * every method first calls self._check_other_folding(other) (its contract: raises iff the two are Spectra of different folding);
+      * binary: with a masked-array operand the result is built from self.data.<same method>(other.data) and mask_or(self.mask, other.mask); with any
+        other operand from self.data.<same method>(other) and self.mask; constructor flags mask_corners=False, check_folding=False,
+        data_folded=self.folded; labels: self's, or the other's when self has none; extrap_x kept when equal and dropped (None) otherwise;
+      * in-place: self.data.<same method>(...) is applied, the mask becomes mask_or(self.mask, other.mask) for a masked-array operand (untouched
+        otherwise), extrap_x is dropped when different, and self itself is returned."""
+    oid = 'C09/Spectrum_mod.py:Spectrum/operators'
+    fn = 'dadi/Spectrum_mod.py::Spectrum'
+
+    @guarded(oid, fn)
+    def go():
+        from vf.pyvc import FuncRef
+        mod, gens = _exec_templates('dadi/Spectrum_mod.py', 'Spectrum')
+        out = []
+        binary = [g for g in gens if 'return outfs' in g[1] or '__new__' in g[1]]
+        inplace = [g for g in gens if g not in binary]
+        bnames = [m for g in binary for m in g[0]]
+        inames = [m for g in inplace for m in g[0]]
+        ops = ('add', 'sub', 'mul', 'truediv', 'floordiv', 'pow')
+        missing = ['__%s__' % o for o in ops if '__%s__' % o not in bnames] + ['__r%s__' % o for o in ops if '__r%s__' % o not in bnames] + \
+                  ['__i%s__' % o for o in ops if '__i%s__' % o not in inames]
+        out.append(struct(oid + '.table', not missing and len(binary) >= 1 and len(inplace) >= 1,
+                          'forward, reflected and in-place methods generated for + - * / // ** (missing: %s)' % (missing or 'none'), fn,
+                          finding_key='C09/operators/table'))
+
+        def operands(self_ids=True, other_ids=True):
+            me, other = Tm('self'), Tm('other')
+            me.attrs.update(data=Tm('self.data'), mask=Tm('self.mask'), folded=z3.Bool('self_folded'), pop_ids=Tm('self.pop_ids') if self_ids else None,
+                            extrap_x=Tm('self.extrap_x'), __class__=Tm('Spectrum'))
+            other.attrs.update(data=Tm('other.data'), mask=Tm('other.mask'), folded=z3.Bool('other_folded'), pop_ids=Tm('other.pop_ids') if other_ids else None,
+                               extrap_x=Tm('other.extrap_x'))
+            return me, other
+
+        def run(tmpl, key, m, me, other):
+            src = tmpl % {key: m}
+            node = ast.parse(src).body[0]
+            ex = Executor(policy=lambda fr: 'abstract')
+            paths = ex.run(FuncRef(mod, node, 'Spectrum.' + m), [me, other])
+            return ex, paths
+        for names, tmpl, key in binary:
+            for m in names:
+                o = '%s.%s' % (oid, m)
+                fk = 'C09/operators/' + m
+                for si, oi, tag in ((True, True, 'labels-both'), (False, True, 'labels-other-only'), (True, False, 'labels-self-only')):
+                    me, other = operands(si, oi)
+                    ex, paths = run(tmpl, key, m, me, other)
+                    bad = []
+                    if not paths or any(p.outcome != 'return' for p in paths):
+                        bad.append('a path does not return: %r' % [(p.outcome) for p in paths])
+                    for p in paths:
+                        if p.outcome != 'return':
+                            continue
+                        calls = [e for e in p.log if e[0] == 'call']
+                        if not calls or '_check_other_folding(self)' not in str(calls[0][1]) or len(calls[0][2].args) != 1 or calls[0][2].args[0] is not other:
+                            bad.append('first call is not self._check_other_folding(other)')
+                        masked = any('isinstance(other' in str(c) and not str(c).startswith('Not(') for c in p.pc)
+                        same_x = any(str(c).replace(' ', '') in ('Not(Not(cmp:Eq(other.extrap_x,self.extrap_x)))', 'cmp:Eq(other.extrap_x,self.extrap_x)',
+                                                                'Not(Not(cmp:Eq(self.extrap_x,other.extrap_x)))', 'cmp:Eq(self.extrap_x,other.extrap_x)',
+                                                                'Not(cmp:NotEq(self.extrap_x,other.extrap_x))', 'Not(cmp:NotEq(other.extrap_x,self.extrap_x))') for c in p.pc)
+                        v = p.value
+                        if not (isinstance(v, Tm) and '__new__' in v.op):
+                            bad.append('result is not built by the class constructor: %s' % vrepr(v)[:80])
+                            continue
+                        pos = [x for x in v.args if not (isinstance(x, tuple) and x and x[0] == 'kw')]
+                        kws = {x[1]: x[2] for x in v.args if isinstance(x, tuple) and x and x[0] == 'kw'}
+                        want_data = 'call:attr:%s(self.data)(%s)' % (m, 'other.data' if masked else 'other')
+                        want_mask = 'call:lib:numpy.ma.mask_or(self.mask, other.mask)' if masked else 'self.mask'
+                        if len(pos) != 3 or vrepr(pos[1]) != want_data:
+                            bad.append('data is %s, expected %s' % (vrepr(pos[1])[:80] if len(pos) > 1 else '?', want_data))
+                        elif vrepr(pos[2]) not in (want_mask, want_mask.replace('(self.mask, other.mask)', '(other.mask, self.mask)')):
+                            bad.append('mask is %s, expected %s' % (vrepr(pos[2])[:80], want_mask))
+                        if kws.get('mask_corners') is not False or kws.get('check_folding') is not False:
+                            bad.append('mask_corners / check_folding not False')
+                        df = kws.get('data_folded')
+                        if not (isinstance(df, z3.ExprRef) and df.eq(z3.Bool('self_folded'))):
+                            bad.append('data_folded is not self.folded')
+                        want_ids = me.attrs['pop_ids'] if si else other.attrs['pop_ids']
+                        if kws.get('pop_ids') is not want_ids:
+                            bad.append('pop_ids is %s' % vrepr(kws.get('pop_ids'))[:40])
+                        wx = me.attrs['extrap_x'] if same_x else None
+                        if kws.get('extrap_x') is not wx:
+                            bad.append('extrap_x is %s on a path where the two %s' % (vrepr(kws.get('extrap_x'))[:40], 'agree' if same_x else 'differ'))
+                    out.append(struct('%s.%s' % (o, tag), not bad, '; '.join(sorted(set(bad)))[:400] or
+                                      '%d paths: folding check first, data by the same method, masks or-ed, flags, labels, extrap_x' % len(paths), fn, finding_key=fk))
+        for names, tmpl, key in inplace:
+            for m in names:
+                o = '%s.%s' % (oid, m)
+                fk = 'C09/operators/' + m
+                node = ast.parse(tmpl % {key: m}).body[0]
+                ex = Executor(policy=lambda fr: 'abstract')
+                fref = FuncRef(mod, node, 'Spectrum.' + m)
+
+                def thunk(e, fref=fref):
+                    me, other = operands()           # fresh operands on every path: the method assigns attributes of self
+                    r = e.apply(fref.node, None, fref.mod, [me, other], {}, fref.qualname)
+                    return (r, me, other, dict(me.attrs))
+                paths = ex.explore(thunk)
+                bad = []
+                if not paths or any(p.outcome != 'return' for p in paths):
+                    bad.append('a path does not return')
+                for p in paths:
+                    if p.outcome != 'return':
+                        continue
+                    r, me, other, fin = p.value
+                    calls = [e for e in p.log if e[0] == 'call']
+                    if not calls or '_check_other_folding(self)' not in str(calls[0][1]) or len(calls[0][2].args) != 1 or calls[0][2].args[0] is not other:
+                        bad.append('first call is not self._check_other_folding(other)')
+                    masked = any('isinstance(other' in str(c) and not str(c).startswith('Not(') for c in p.pc)
+                    same_x = any(str(c).replace(' ', '') in ('Not(Not(cmp:Eq(other.extrap_x,self.extrap_x)))', 'cmp:Eq(other.extrap_x,self.extrap_x)',
+                                                            'Not(Not(cmp:Eq(self.extrap_x,other.extrap_x)))', 'cmp:Eq(self.extrap_x,other.extrap_x)',
+                                                            'Not(cmp:NotEq(self.extrap_x,other.extrap_x))', 'Not(cmp:NotEq(other.extrap_x,self.extrap_x))') for c in p.pc)
+                    want_call = 'call:attr:%s(self.data)(%s)' % (m, 'other.data' if masked else 'other')
+                    if not any(vrepr(e[2]) == want_call for e in calls):
+                        bad.append('%s not applied' % want_call)
+                    if r is not me:
+                        bad.append('does not return self')
+                    wantm = 'call:lib:numpy.ma.mask_or(self.mask, other.mask)' if masked else 'self.mask'
+                    if vrepr(fin.get('mask')) not in (wantm, wantm.replace('(self.mask, other.mask)', '(other.mask, self.mask)')):
+                        bad.append('mask becomes %s, expected %s' % (vrepr(fin.get('mask'))[:80], wantm))
+                    gx = fin.get('extrap_x')
+                    if (same_x and vrepr(gx) != 'self.extrap_x') or (not same_x and gx is not None):
+                        bad.append('extrap_x becomes %s on a path where the two %s' % (vrepr(gx)[:40], 'agree' if same_x else 'differ'))
+                    if vrepr(fin.get('folded')) != 'self_folded' or vrepr(fin.get('pop_ids')) != 'self.pop_ids':
+                        bad.append('folded / pop_ids of self changed')
+                out.append(struct(o, not bad, '; '.join(sorted(set(bad)))[:400] or
+                                  '%d paths: folding check first, data updated by the same method, mask or-ed, extrap_x rule, returns self' % len(paths),
+                                  fn, finding_key=fk))
+        return out
+    return go()
+
+
 def _bools(e):
     out = []
 
